@@ -46,6 +46,28 @@ var c17Types = map[string]reflect.Type{"int": reflect.TypeOf(int(0)), "int8": re
 	"uint": reflect.TypeOf(uint(0)), "uint8": reflect.TypeOf(uint8(0)), "uint16": reflect.TypeOf(uint16(0)), "uint32": reflect.TypeOf(uint32(0)), "uint64": reflect.TypeOf(uint64(0)),
 	"float32": reflect.TypeOf(float32(0)), "float64": reflect.TypeOf(float64(0)), "string": reflect.TypeOf(""), "bool": reflect.TypeOf(false)}
 
+// named types over every kind (path "func-named")
+type (
+	NInt     int
+	NInt8    int8
+	NInt16   int16
+	NInt32   int32
+	NInt64   int64
+	NUint    uint
+	NUint8   uint8
+	NUint16  uint16
+	NUint32  uint32
+	NUint64  uint64
+	NFloat32 float32
+	NFloat64 float64
+	NString  string
+	NBool    bool
+)
+
+var c17Named = map[string]reflect.Type{"int": reflect.TypeOf(NInt(0)), "int8": reflect.TypeOf(NInt8(0)), "int16": reflect.TypeOf(NInt16(0)), "int32": reflect.TypeOf(NInt32(0)), "int64": reflect.TypeOf(NInt64(0)),
+	"uint": reflect.TypeOf(NUint(0)), "uint8": reflect.TypeOf(NUint8(0)), "uint16": reflect.TypeOf(NUint16(0)), "uint32": reflect.TypeOf(NUint32(0)), "uint64": reflect.TypeOf(NUint64(0)),
+	"float32": reflect.TypeOf(NFloat32(0)), "float64": reflect.TypeOf(NFloat64(0)), "string": reflect.TypeOf(NString("")), "bool": reflect.TypeOf(NBool(false))}
+
 // c17Script is the script value of a symbolic value.
 func c17Script(fam, sym string) data.Value {
 	switch fam {
@@ -86,6 +108,10 @@ func c17Benign(k string) (string, string) {
 }
 
 func c17Same(a, b reflect.Value) bool {
+	// a value received in a named type (path func-named) is compared in the underlying kind's plain type
+	if a.Kind() == b.Kind() && a.Type() != b.Type() && a.Type().ConvertibleTo(b.Type()) {
+		a = a.Convert(b.Type())
+	}
 	if a.Type() != b.Type() {
 		return false
 	}
@@ -234,20 +260,24 @@ func c17Run(vm *runtime.VM, k c17Case) (o c17Obs) {
 		return c17Obs{kind: "delivered", recv: c17Captured, ret: ret}
 	}
 	switch sc.Path {
-	case "func":
+	case "func", "func-named":
+		types := c17Types
+		if sc.Path == "func-named" {
+			types = c17Named
+		}
 		ins := make([]reflect.Type, len(sc.Sig))
 		for i, kk := range sc.Sig {
-			ins[i] = c17Types[kk]
+			ins[i] = types[kk]
 		}
 		outK := sc.Ret
 		if sc.Vary > 0 {
 			outK = sc.Sig[sc.Vary-1]
 		}
-		ft := reflect.FuncOf(ins, []reflect.Type{c17Types[outK]}, false)
+		ft := reflect.FuncOf(ins, []reflect.Type{types[outK]}, false)
 		fn := reflect.MakeFunc(ft, func(in []reflect.Value) []reflect.Value {
 			c17Captured = append([]reflect.Value{}, in...)
 			if sc.Vary == 0 {
-				return []reflect.Value{c17Go(sc.Ret, sc.Valfam, sc.Val)}
+				return []reflect.Value{c17Go(sc.Ret, sc.Valfam, sc.Val).Convert(types[sc.Ret])}
 			}
 			return []reflect.Value{in[sc.Vary-1]}
 		})
